@@ -330,3 +330,135 @@ def tree_bits(tree):
 def cohort_keys(round_seed, n):
   import jax
   return jax.random.split(jax.random.PRNGKey(round_seed), max(n, 1))[:n]
+
+
+# ------------------------------------------------------- algorithm factory
+ALGORITHMS = ['fedavg', 'fedprox', 'mime', 'mimelite', 'agnostic', 'hyp', 'apfl']
+_ALG_CACHE = {}
+
+
+def _freeze(x):
+  if isinstance(x, dict):
+    return tuple(sorted((k, _freeze(v)) for k, v in x.items()))
+  if isinstance(x, list):
+    return tuple(_freeze(v) for v in x)
+  return x
+
+
+def gen_alg_spec(g, name=None, allow_seed_none=False):
+  name = name or g.choice(ALGORITHMS)
+  hp = gen_hparams(g.sub('hp'), allow_seed_none=allow_seed_none)
+  if hp['num_epochs'] is None:      # keeps empty clients legal (see C01 assumptions)
+    hp['num_epochs'] = 1
+  spec = {'name': name, 'model': g.choice(['lin', 'lin', 'soft']), 'rng_variant': g.chance(0.2), 'd': g.choice([1, 3]),
+          'copt': g.choice(OPT_NAMES), 'sopt': g.choice(['sgd1', 'sgd_half', 'momentum', 'adam', 'adagrad']),
+          'hp': hp, 'pad_bs': g.choice([1, 2, 3, 8]), 'pad_buckets': g.choice([1, 2])}
+  if name == 'fedprox':
+    spec['mu'] = g.choice([0.0, 0.1, 1.0])
+  if name in ('mime', 'mimelite'):
+    spec['base'] = g.choice(['sgd', 'momentum', 'adam', 'sgd_big'])
+    spec['server_lr'] = g.choice([1.0, 0.5, 0.1])
+    spec['clip'] = g.choice([None, None, 0.01, 0.2, 5.0]) if name == 'mimelite' else None
+  if name == 'agnostic':
+    spec['num_domains'] = g.randint(1, 3)
+    spec['window'] = g.randint(1, 4)
+    spec['domain_lr'] = g.choice([0.0, 0.1, 1.0])
+    spec['domain_alg'] = g.choice(['eg', 'eg', 'none'])
+  if name == 'hyp':
+    spec['clusters'] = g.randint(1, 4)
+  if name == 'apfl':
+    spec['coef'] = g.choice([0.0, 0.3, 0.5, 1.0])
+    spec['copt'] = g.choice(['sgd', 'sgd_big', 'momentum', 'adam'])
+  return spec
+
+
+def build_algorithm(spec, backend='jit', fresh=False):
+  """Real fedjax algorithm for spec, bound to backend at construction. Cached unless fresh."""
+  import fedjax
+  from fedjax.core import models as fmodels
+  key = (_freeze(spec), repr(backend))
+  if not fresh and key in _ALG_CACHE:
+    return _ALG_CACHE[key]
+  if len(_ALG_CACHE) > 40:
+    _ALG_CACHE.clear()
+  name = spec['name']
+  pel = per_example_loss(spec['model'], spec['rng_variant'])
+  hp = hparams_obj(spec['hp'])
+  pad = fedjax.PaddedBatchHParams(batch_size=spec['pad_bs'], num_batch_size_buckets=spec['pad_buckets'])
+  import importlib
+
+  class A:
+    pass
+  for m_ in ('fed_avg', 'fed_prox', 'mime', 'mime_lite', 'agnostic_fed_avg', 'hyp_cluster', 'apfl'):
+    setattr(A, m_, importlib.import_module('fedjax.algorithms.' + m_))
+  with fedjax.for_each_client_backend(backend_obj(backend)):
+    if name == 'fedavg':
+      alg = A.fed_avg.federated_averaging(fmodels.grad(pel), optimizer(spec['copt']), optimizer(spec['sopt']), hp)
+    elif name == 'fedprox':
+      alg = A.fed_prox.fed_prox(pel, optimizer(spec['copt']), optimizer(spec['sopt']), hp, spec['mu'])
+    elif name == 'mime':
+      alg = A.mime.mime(pel, optimizer(spec['base']), hp, pad, spec['server_lr'])
+    elif name == 'mimelite':
+      alg = A.mime_lite.mime_lite(pel, optimizer(spec['base']), hp, pad, spec['server_lr'],
+                                  client_delta_clip_norm=spec['clip'])
+    elif name == 'agnostic':
+      nd = spec['num_domains']
+      alg = A.agnostic_fed_avg.agnostic_federated_averaging(
+          pel, optimizer(spec['copt']), optimizer(spec['sopt']), hp, pad,
+          init_domain_weights=np.full((nd,), 1.0 / nd, np.float32), domain_learning_rate=spec['domain_lr'],
+          domain_algorithm=spec['domain_alg'], domain_window_size=spec['window'],
+          init_domain_window=np.ones((nd,), np.float32))
+    elif name == 'hyp':
+      alg = A.hyp_cluster.hyp_cluster(pel, optimizer(spec['copt']), optimizer(spec['sopt']), pad, hp)
+    elif name == 'apfl':
+      alg = A.apfl.adaptive_personalized_federated_learning(
+          fmodels.grad(pel), optimizer(spec['copt']), optimizer(spec['sopt']), hp, spec['coef'])
+    else:
+      raise ValueError(name)
+  if not fresh:
+    _ALG_CACHE[key] = alg
+  return alg
+
+
+def init_state(spec, alg, g):
+  if spec['name'] == 'hyp':
+    return alg.init([init_params(spec['model'], spec['d'], g.sub('c', i)) for i in range(spec['clusters'])])
+  return alg.init(init_params(spec['model'], spec['d'], g))
+
+
+def plain_clients(pop, ids, cohort, key_seed, num_domains=None, drop=()):
+  """[(cid, ClientDataset, key)] with ordinary (non-recording) datasets."""
+  import fedjax
+  idx = [i for i in cohort if i < len(ids)]
+  keys = cohort_keys(key_seed, len(idx))
+  out = []
+  for j, i in enumerate(idx):
+    raw = pop[ids[i]]
+    if i in drop:
+      raw = empty_like(raw)
+    if num_domains is not None:
+      raw = dict(raw, domain_id=(raw['domain_id'] % num_domains).astype(np.int32))
+    out.append((ids[i], fedjax.ClientDataset(raw), keys[j]))
+  return out
+
+
+def snapshot(tree):
+  """Deep value snapshot of a pytree-with-containers: structure (incl. dict keys / list lengths) + leaf bytes."""
+  import jax
+  leaves, td = jax.tree_util.tree_flatten(tree)
+  return (str(td), [(str(np.asarray(l).dtype), np.asarray(l).shape, np.asarray(l).tobytes()) for l in leaves])
+
+
+def snapshot_diff(tree, snap):
+  import jax
+  try:
+    leaves, td = jax.tree_util.tree_flatten(tree)
+    if str(td) != snap[0]:
+      return f'structure changed: {snap[0][:120]} -> {str(td)[:120]}'
+    for i, (l, s) in enumerate(zip(leaves, snap[1])):
+      a = np.asarray(l)
+      if (str(a.dtype), a.shape, a.tobytes()) != s:
+        return f'leaf {i} changed'
+  except Exception as e:
+    return f'unreadable: {type(e).__name__}: {str(e)[:100]}'
+  return None
